@@ -266,7 +266,12 @@ def work(job):
             base = pt if pt is not None else Tree((S["D"], S["G"]))
             t = _apply_placement(base, kind, where, dp, nb, S["pf"])
             h = TreeHolder(t, S["td"], S["perm_dist"])
-            lp = prop.log_p(h)
+            try:
+                lp = prop.log_p(h)
+            except KeyError:
+                # a valid placement the proposal has no probability for: the support is incomplete
+                out[f.key()] = None
+                continue
             if job["kernel"] == "bootstrap":
                 lp2 = prop.log_p(t)          # bootstrap accepts plain trees as well
                 out[f.key()] = (lp, lp2)
@@ -275,6 +280,15 @@ def work(job):
         return out
     lps, f3 = patcher.entered_functions(logps)
     funcs = sorted(set(funcs) | set(f3))
+    undefined = [k for k, v in lps.items() if v is None]
+    res["obligations"] += 1
+    if undefined:
+        cex("log_p-undefined", trees=[oracle_keys[k][2].describe() for k in undefined])
+        res["functions"] = funcs
+        res["twin_ok"] = True
+        res["status"] = "cex"
+        return res
+    res["discharged"] += 1
     total = V(0)
     for k, (lp, lp2) in lps.items():
         e = lp.e if isinstance(lp, Log) else V(1) if lp == 0 else None
@@ -365,7 +379,14 @@ def replay(case):
         base = pt if pt is not None else Tree((S["D"], S["G"]))
         t = _apply_placement(base, knd, where, dp, nb, S["pf"])
         h = TreeHolder(t, S["td"], S["perm_dist"])
-        lps[f.key()] = (float(prop.log_p(h)), float(prop.log_p(t)) if job["kernel"] == "bootstrap" else None)
+        try:
+            lps[f.key()] = (float(prop.log_p(h)), float(prop.log_p(t)) if job["kernel"] == "bootstrap" else None)
+        except KeyError:
+            if kind == "log_p-undefined":
+                return True, {"log_p raises KeyError on the valid placement": f.describe()}
+            raise
+    if kind == "log_p-undefined":
+        return False, {}
     if kind == "normalisation":
         tot = sum(math.exp(a) for a, _ in lps.values())
         return abs(tot - 1) > 1e-9, {"sum": tot}
